@@ -107,10 +107,42 @@ theorem decodeReadout_eq (r : P1.Readout) (d : Dict) (m : P1.IdentMatch)
   unfold decodeReadout
   split at hd
   · cases hd
-  · rename_i items n heq
+  · unfold decodeParsedContent at hd
     split at hd
     · cases hd
-    · simp only [hd, hm]
-      cases m.ident <;> rfl
+    · rename_i items n heq
+      split at hd
+      · cases hd
+      · simp only [hd, hm]
+        cases m.ident <;> rfl
+
+/-- the guard of `decode_p1_readout_content` passes on printable characters, CR and LF (and on
+    anything else ≥ 0x20): the result is that of parsing and decoding -/
+theorem decodeContent_of_no_control (content : List Nat) (h : ∀ c ∈ content, 32 ≤ c ∨ c = 13 ∨ c = 10) :
+    decodeContent content = decodeParsedContent content := by
+  have hn : content.any isControl = false := by
+    rw [List.any_eq_false]
+    intro c hc
+    have := h c hc
+    unfold isControl
+    simp only [Bool.and_eq_true, decide_eq_true_eq, bne_iff_ne, ne_eq]
+    omega
+  unfold decodeContent
+  rw [hn]
+  rfl
+
+/-- and refuses everything with another control octet, whatever the parser would say -/
+theorem decodeContent_control (content : List Nat) (h : ∃ c ∈ content, c < 32 ∧ c ≠ 13 ∧ c ≠ 10) :
+    decodeContent content = .error .valueError := by
+  obtain ⟨c, hc, h1, h2, h3⟩ := h
+  have hn : content.any isControl = true := by
+    rw [List.any_eq_true]
+    refine ⟨c, hc, ?_⟩
+    unfold isControl
+    simp only [Bool.and_eq_true, decide_eq_true_eq, bne_iff_ne, ne_eq]
+    exact ⟨h1, h2, h3⟩
+  unfold decodeContent
+  rw [hn]
+  rfl
 
 end Amshan.P1ParseRT
